@@ -56,7 +56,13 @@ func SimpleDef(r *rand.Rand, d int) M {
 			s["multipleOf"] = json.Number([]string{"2", "5", "0.5"}[r.Intn(3)])
 		}
 		if p(0.2) {
-			s["enum"] = []interface{}{json.Number("1"), json.Number("2"), json.Number("7")}
+			// members of several magnitudes and with fractions: not all representable in every carrying kind
+			s["enum"] = [][]interface{}{
+				{json.Number("1"), json.Number("2"), json.Number("7")},
+				{json.Number("1.5"), json.Number("2.5")},
+				{json.Number("300"), json.Number("400")},
+				{json.Number("-1"), json.Number("70000"), json.Number("4294967296")},
+			}[r.Intn(4)]
 		}
 	case "array":
 		s["items"] = SimpleDef(r, d-1)
